@@ -116,7 +116,10 @@ def bitmap_scenarios(rng, tier):
     # bit-maps over elements that include character inserts (2 05 YYY), operators, associated fields, replications:
     # tied only (FM 94 leaves open whether 2 05 YYY counts as a data entity; the library counts it, and so does the model)
     for i in range(60 if tier == "quick" else 1500):
-        msg, t, nsub = bitmap.build_wild(rng, B, D, compressed=(i % 3 == 0))
+        if i % 3 == 1:
+            msg, t, nsub = bitmap.build_insert(rng, B, compressed=(i % 2 == 0))
+        else:
+            msg, t, nsub = bitmap.build_wild(rng, B, D, compressed=(i % 3 == 0))
         ls = ["T.use cur", "ds.decodemsg " + msg.hex()]
         for k in range(nsub):
             ls += ["dd.list %d" % k, "dd.vals %d" % k]
